@@ -49,6 +49,11 @@ func (s *SequentialPopulationEpochExecutor) prepareForReproduction(ctx context.C
 
 	// clear executor state from previous run
 	s.sortedSpecies = nil
+	// clear the super champion offspring counts that a turnover which was given up half way (cancelled context, failed
+	// reproduction) has left behind: they are decided anew below, and a stale count would take over a species' quota
+	for _, org := range p.Organisms {
+		org.superChampOffspring = 0
+	}
 
 	// Use Species' ages to modify the objective fitness of organisms in other words, make it more fair for younger
 	// species, so they have a chance to take hold and also penalize stagnant species. Then adjust the fitness using
